@@ -105,11 +105,12 @@ async def socks_attempt(port, methods, cont, cred, target, v4id=None):
 
 async def part_socks(out, args, rng, wd, origin):
     table = AuthTable(wd)
-    P = {k: free_port() for k in ("req", "opt", "api")}
+    P = {k: free_port() for k in ("req", "opt", "nocache", "api")}
     users = [{"username": "alice", "password": "s3cret"}, {"username": "bob", "password": ""}]
     auth = {"required": True, "users": users, "cmd": [fx("authcmd.sh"), "tag", "#USER#", "#PASS#"], "cache": {"timeout": CACHE_T}}
     listeners = [{"name": "req", "type": "socks", "bind": "127.0.0.1:%d" % P["req"], "auth": auth},
-                 {"name": "opt", "type": "socks", "bind": "127.0.0.1:%d" % P["opt"], "auth": dict(auth, required=False)}]
+                 {"name": "opt", "type": "socks", "bind": "127.0.0.1:%d" % P["opt"], "auth": dict(auth, required=False)},
+                 {"name": "nocache", "type": "socks", "bind": "127.0.0.1:%d" % P["nocache"], "auth": dict(auth, cache={"timeout": 0})}]
     A = Proxy(args.bin, base_cfg(listeners, [{"name": "direct"}], [{"target": "direct"}], metrics_port=P["api"]), "S", wd, env={"AUTH_DIR": table.dir})
     await A.start()
     accepted = origin.accepted
@@ -226,6 +227,25 @@ async def part_socks(out, args, rng, wd, origin):
             if served not in legal:
                 out.violation("password verdict served that no command run for the identical credentials within the cache lifetime produced",
                               {"user": u.decode(), "pass": p.decode(), "served": served, "command_runs_in_window": len(runs), "their_verdicts": sorted(legal)})
+        # ---- cache lifetime 0 = no cache: a verdict is never served again
+        async def attempt0(u, p):
+            r = await socks_attempt(P["nocache"], [2], "auto", (u, p), ("127.0.0.1", origin.port))
+            return r["result"] == "success"
+        table.set({(b"hal", b"pw")})
+        first = await attempt0(b"hal", b"pw")
+        second = await attempt0(b"hal", b"pw")
+        table.set(set())
+        await asyncio.sleep(1.5)
+        after_revoke = await attempt0(b"hal", b"pw")
+        table.set({(b"hal", b"new")})
+        await asyncio.sleep(0.2)
+        new_pw = await attempt0(b"hal", b"new")
+        out.case()
+        out.nontrivial(("cache-timeout-0", first, second, after_revoke, new_pw))
+        if not (first and second and new_pw):
+            out.violation("valid credentials refused on a listener with cache timeout 0", {"first": first, "second": second, "new_password": new_pw})
+        if after_revoke:
+            out.violation("password verdict served from a cache although the cache lifetime is 0 (revoked credentials still accepted)", {"seconds_after_revocation": 1.5})
         out.setx("auth_command_runs", len(cmdlog))
         if not A.alive():
             out.violation("proxy process died", {"rc": A.exit_status(), "stderr": A.stderr_tail(600)})
